@@ -23,9 +23,17 @@ async def run_one(ctx, tree, n, plan, results, timeout=10.0):
     shutil.rmtree(ctl, ignore_errors=True)
     os.makedirs(ctl)
     os.chmod(ctl, 0o777)
-    conf = ('url_rewrite_program /usr/bin/env python3 %s %s\nurl_rewrite_children 1 startup=1 idle=1 concurrency=50\n'
-            'url_rewrite_extras ""\nurl_rewrite_bypass off\n' % (STUB, ctl))
-    sq = squidctl.Squid(ctx, tree, name='c47-%d' % n, clock=False, conf_extra=conf)
+    mode = plan.get('mode', 'rewrite')
+    access = 'http_access allow all'
+    if mode == 'extacl':
+        # the reply of request k is "OK user=k": the transaction is allowed and logged under the name its reply carried
+        conf = ('external_acl_type chk concurrency=50 children-max=1 children-startup=1 children-idle=1 ttl=0 negative_ttl=0 %%URI /usr/bin/env python3 %s %s\n'
+                'acl viachk external chk\n' % (STUB, ctl))
+        access = 'http_access allow viachk\nhttp_access deny all'
+    else:
+        conf = ('url_rewrite_program /usr/bin/env python3 %s %s\nurl_rewrite_children 1 startup=1 idle=1 concurrency=%d\n'
+                'url_rewrite_extras ""\nurl_rewrite_bypass off\n' % (STUB, ctl, 0 if mode == 'serial' else 50))
+    sq = squidctl.Squid(ctx, tree, name='c47-%d' % n, clock=False, conf_extra=conf, http_access=access)
     rec = peers.Rec()
     seen = {}
 
@@ -61,8 +69,24 @@ async def run_one(ctx, tree, n, plan, results, timeout=10.0):
             if e['e'] == 'HDone':
                 ev.append(e)
         strays = [e for e in hev if e['e'] == 'HStray']
+        un = {}
+        if mode == 'extacl':
+            for l in sq.access_log():
+                f = l.split()
+                vid = [x for x in f if x.startswith('id=')]
+                if vid and len(f) > 7:
+                    un[vid[0][3:]] = f[7]
         for k, r in rs:
             t = seen.get(k)
+            if mode == 'extacl':
+                if r.status is None:
+                    kind, k2 = 'lost', ''
+                elif t is None or un.get(k, '-') == '-':
+                    kind, k2 = 'err', ''
+                else:
+                    kind, k2 = 'rw', un[k]
+                ev.append({'e': 'Outcome', 'k': k, 'kind': kind, 'k2': k2})
+                continue
             if r.status is None:
                 kind, k2 = 'lost', ''
             elif t is None:
@@ -140,9 +164,23 @@ def run(ctx):
             strays.append([order[pos], what])
         cuts = [[rnd.choice(ks), rnd.randint(1, 6)] for _ in range(rnd.randint(0, 2))]
         plans.append({'batch': B, 'order': order, 'cuts': cuts, 'strays': strays, 'pause': 0.01, 'src': 'stray'})
+    # (e) the same kinds of plan for an external_acl helper (reply = OK user=<k>), and (f) a helper without channel ids
+    # (one request at a time, replies fragmented)
+    for _ in range(16 if ctx.thorough else 5):
+        order = ks[:]
+        rnd.shuffle(order)
+        strays = []
+        for _ in range(rnd.randint(0, 2)):
+            pos = rnd.randint(1, B - 1)
+            strays.append([order[pos], rnd.choice(['dup:' + rnd.choice(order[:pos]), 'chan:%d' % rnd.choice([0, B, B + 1, 40, 1000])])])
+        cuts = [[rnd.choice(ks), rnd.randint(1, 4)] for _ in range(rnd.randint(1, 3))]
+        plans.append({'mode': 'extacl', 'batch': B, 'order': order, 'cuts': cuts, 'strays': strays, 'pause': 0.01, 'src': 'extacl'})
+    for _ in range(8 if ctx.thorough else 3):
+        cuts = [[k, rnd.randint(1, 30)] for k in ks if rnd.random() < 0.7]
+        plans.append({'mode': 'serial', 'batch': B, 'order': ks[:], 'cuts': cuts, 'pause': 0.004, 'src': 'serial'})
     uniq = {}
     for p in plans:
-        uniq.setdefault(json.dumps([p['order'], sorted(p['cuts']), p.get('strays', [])]), p)
+        uniq.setdefault(json.dumps([p.get('mode', 'rewrite'), p['order'], sorted(p['cuts']), p.get('strays', [])]), p)
     plans = list(uniq.values())
     if not ctx.thorough:
         sysp = [p for p in plans if p['src'] != 'tlc']
@@ -174,16 +212,17 @@ def run(ctx):
         r = results[i]
         bad = [e for e in r['ev'] if e['e'] == 'Outcome' and not (e['kind'] == 'rw' and e['k2'] == e['k'])]
         ctx.violation('helper reply did not reach the request that asked: %s; helper writes %s' % (json.dumps(bad[:3]), json.dumps(r['writes'][:4])),
-                      {'kind': 'helper', 'class': {'split_inside_channel_id': any(j <= 2 for _, j in r['plan']['cuts']), 'stray_replies': bool(r.get('strays'))},
+                      {'kind': 'helper', 'class': {'split_inside_channel_id': any(j <= 2 for _, j in r['plan']['cuts']), 'stray_replies': bool(r.get('strays')), 'helper': r['plan'].get('mode', 'rewrite')},
                        'plan': r['plan'], 'events': r['ev'], 'squid_log': r['log']})
     ctx.cov['impl_distinct'] = len(results)
     ctx.cov['requests_checked'] = sum(1 for r in results for e in r['ev'] if e['e'] == 'Outcome')
+    ctx.cov['by_helper_kind'] = {m: sum(1 for r in results if r['plan'].get('mode', 'rewrite') == m) for m in ('rewrite', 'extacl', 'serial')}
     ctx.cov['stray_reply_lines'] = sum(len(r.get('strays', [])) for r in results)
     ctx.cov['fragments_written'] = sum(len(r['writes']) for r in results)
     for r in results[:2]:
         ctx.sample({'plan': r['plan'], 'writes': r['writes'][:5], 'outcomes': [e for e in r['ev'] if e['e'] == 'Outcome'][:4]})
     ctx.cov['rule'] = ('HelperImpl.tla (the parse loop of helperHandleRead over ids {1,2,12}, all reply orders and all fragmentations) is model-checked; its '
-                       'paths plus systematic cuts inside two-digit channel ids (prefix channel pending / already answered) plus seeded random plans plus plans with stray reply lines (duplicate channel ids, ids nobody uses) are '
-                       'realised with a scripted url_rewrite helper on a fresh squid each (12 concurrent requests = channel ids 1..12); histories validated '
+                       'paths plus systematic cuts inside two-digit channel ids (prefix channel pending / already answered) plus seeded random plans plus plans with stray reply lines (duplicate channel ids, ids nobody uses) plus the same for an external_acl helper (reply = user name, observed in the access log) plus a helper without channel ids (serial, fragmented replies) are '
+                       'realised with a scripted helper on a fresh squid each (12 concurrent requests = channel ids 1..12); histories validated '
                        'by TLC against Helper.tla. Non-trivial = distinct (order, cuts).')
     ctx.assumptions += ['the helper separates fragments by 10-12 ms pauses; Squid may still coalesce two fragments into one read (then the scenario degenerates to an easier one)']
